@@ -663,6 +663,18 @@ unsigned cmb_random_loaded_dice(const unsigned n, const double *pa)
         }
     }
 
+    if (ui >= n) {
+        /*
+         * The probabilities may sum to slightly less than one (we accept that,
+         * within a tolerance), and x fell in the gap. Give the last outcome
+         * that is possible at all, never the invalid index n.
+         */
+        ui = n - 1u;
+        while ((ui > 0u) && !(pa[ui] > 0.0)) {
+            ui--;
+        }
+    }
+
     cmb_assert_debug(ui < n);
     return ui;
 }
